@@ -29,40 +29,47 @@ run_one() {
   VERIF_WORKERS=5 tools/seedtest.sh "$d/patch.diff" "${CHECKS[@]}" > "$OUT/$name.txt" 2>&1
 }
 export -f run_one; export OUT; export CHECKS_STR="${CHECKS[*]}"
-ls -d seeded/*/ | sed 's#/$##' | xargs -P "$J" -I{} bash -c 'CHECKS=($CHECKS_STR); run_one {}'
-python3 - "$OUT" "${CHECKS[@]}" <<'PY'
+ls -d seeded/*/ | sed 's#/$##' | grep -E "${SEEDS_FILTER:-.}" | xargs -P "$J" -I{} bash -c 'CHECKS=($CHECKS_STR); run_one {}'
+python3 - "$OUT" <<'PY'
 import sys, os, json, re, glob
-out, checks = sys.argv[1], sys.argv[2:]
+out = sys.argv[1]
+checks = ["C%02d" % i for i in range(1, 21)]
 rows = []
 for d in sorted(glob.glob('/verif/seeded/*/')):
     name = os.path.basename(d.rstrip('/'))
-    res = {}
-    hist = {}
-    try:
-        for line in open(os.path.join(out, name + '.txt')):
+    mp = os.path.join(d, 'meta.json')
+    meta = json.load(open(mp))
+    rp = os.path.join(out, name + '.txt')
+    if os.path.exists(rp):
+        res, hist = {}, {}
+        for line in open(rp):
             m = re.match(r'(C\d+) exit=(\d+)(.*)', line)
             if m:
                 res[m.group(1)] = int(m.group(2))
                 h = re.search(r'clause=(\S+) scenario=(\S+)\s+history: (.*)', m.group(3))
                 if h and int(m.group(2)) == 1:
                     hist[m.group(1)] = {'clause': h.group(1), 'scenario': h.group(2), 'history': h.group(3).strip()[:300]}
-    except FileNotFoundError:
-        pass
-    mp = os.path.join(d, 'meta.json')
-    meta = json.load(open(mp))
-    meta['detected_by'] = sorted(c for c, e in res.items() if e == 1)
-    meta['not_detected_by'] = sorted(c for c, e in res.items() if e == 0)
-    meta['detection_examples'] = hist
-    meta['checks_run'] = 'tools/seedmatrix.sh: quick tier of each listed check against a scratch worktree of /repo HEAD with the patch applied'
-    json.dump(meta, open(mp, 'w'), indent=1)
-    rows.append((name, meta.get('property'), res))
+        det = set(meta.get('detected_by', [])) - set(res) | {c for c, e in res.items() if e == 1}
+        nd = set(meta.get('not_detected_by', [])) - set(res) | {c for c, e in res.items() if e == 0}
+        meta['detected_by'], meta['not_detected_by'] = sorted(det), sorted(nd)
+        ex = meta.get('detection_examples', {})
+        ex.update(hist)
+        meta['detection_examples'] = ex
+        meta['checks_run'] = 'tools/seedmatrix.sh: quick tier of the listed checks against a scratch worktree of /repo HEAD with the patch applied'
+        json.dump(meta, open(mp, 'w'), indent=1)
+    rows.append((name, meta.get('property'), set(meta.get('detected_by', [])), set(meta.get('not_detected_by', []))))
+def key(n):
+    a, b = n.split('-'); return (a, int(b))
+rows.sort(key=lambda r: key(r[0]))
 with open('/verif/seeded/MATRIX.md', 'w') as f:
-    f.write('# Seeded changes x quick checks\n\nX = the check exits 1 with a VIOLATION line; . = exits 0; ? = other exit / not run. The first column after the name is the property the change was written against.\n\n')
+    f.write('# Seeded changes x quick checks\n\nX = the check exits 1 with a VIOLATION line on the change; . = exits 0; blank = not run against it. The second column is the property the change was written against. Each change was run against the check of its own property and, when it touches ddsketch/store, against C04, C14 and C15 as well (tools/seedmatrix.sh --own).\n\n')
     f.write('| change | prop | ' + ' | '.join(checks) + ' |\n|---|---|' + '---|' * len(checks) + '\n')
-    for name, prop, res in rows:
-        f.write(f'| {name} | {prop} | ' + ' | '.join({1: 'X', 0: '.'}.get(res.get(c), '?') for c in checks) + ' |\n')
-    own = [(n, p) for n, p, r in rows if r.get(p) != 1]
-    f.write('\nChanges not detected by the check of their own property: ' + (', '.join(n for n, _ in own) if own else 'none') + '\n')
-print(open('/verif/seeded/MATRIX.md').read())
+    for name, prop, det, nd in rows:
+        f.write(f'| {name} | {prop} | ' + ' | '.join('X' if c in det else ('.' if c in nd else ' ') for c in checks) + ' |\n')
+    own = [n for n, p, det, nd in rows if p not in det]
+    anyc = [n for n, p, det, nd in rows if not det]
+    f.write('\nNot detected by the check of their own property: ' + (', '.join(own) if own else 'none') + '\n')
+    f.write('\nNot detected by any check they were run against: ' + (', '.join(anyc) if anyc else 'none') + '\n')
+print(open('/verif/seeded/MATRIX.md').read()[-1500:])
 PY
 rm -rf "$OUT"
